@@ -1,8 +1,24 @@
+#[cfg(feature = "verif_hooks")]
+static VERIF_RNG: std::sync::Mutex<Option<fn(&mut [u8])>> = std::sync::Mutex::new(None);
+
+/// Verification hook: when set, every draw of randomness in this crate is
+/// served by `f` instead of the OS generator (so a check can observe which
+/// bytes each operation consumes). `None` restores the OS generator.
+#[cfg(feature = "verif_hooks")]
+pub fn verif_set_rng(f: Option<fn(&mut [u8])>) {
+    *VERIF_RNG.lock().unwrap() = f;
+}
+
 /// Provides random data up to `len` from the OS's random number generator.
 pub fn randombytes_buf(len: usize) -> Vec<u8> {
     use rand_core::{OsRng, TryRngCore};
 
     let mut r: Vec<u8> = vec![0; len];
+    #[cfg(feature = "verif_hooks")]
+    if let Some(f) = *VERIF_RNG.lock().unwrap() {
+        f(r.as_mut_slice());
+        return r;
+    }
     OsRng
         .try_fill_bytes(r.as_mut_slice())
         .expect("failed to fill random bytes");
@@ -14,6 +30,12 @@ pub fn randombytes_buf(len: usize) -> Vec<u8> {
 /// generator.
 pub fn copy_randombytes(dest: &mut [u8]) {
     use rand_core::{OsRng, TryRngCore};
+
+    #[cfg(feature = "verif_hooks")]
+    if let Some(f) = *VERIF_RNG.lock().unwrap() {
+        f(dest);
+        return;
+    }
 
     OsRng
         .try_fill_bytes(dest)
